@@ -21,6 +21,7 @@ def problem(rng, kind):
                w={t: rng.randint(1, 4) / 2 for t in TERMS[kind]}, rev_keys=rng.random() < 0.5, rev_params=rng.random() < 0.3)
     n = len(cfg["batch"])
     cfg["obs"] = dict(inputs=[[dy(rng) for _ in range(nv)] for _ in range(n)], vals=[[float(rng.randint(-2, 2))] for _ in range(n)])
+    cfg["obs_arows"] = [dy(rng, 1, 4) for _ in range(n)]        # used by every second PDE specification (see generate)
     if kind == "ode":
         cfg["ic"] = dict(t0=dy(rng), u0=[float(rng.randint(-2, 2))])
         cfg["a_batch_rows"] = [dy(rng, 1, 3) for _ in range(n)]       # used by every second specification (see generate)
@@ -53,7 +54,10 @@ def build(cfg, masks):
     Mtree = lambda t: Params(nn_params=bool(masks[t][0]), eq_params=od({"a": bool(masks[t][1]), "b": bool(masks[t][2])}))
     use_str = all(as_string(masks[t]) for t in masks)           # every mask has a string form: go through from_str (strings and trees may be mixed)
     M = (lambda t: as_string(masks[t])) if use_str else Mtree
-    obs = {"pinn_in": jnp.array(cfg["obs"]["inputs"]), "val": jnp.array(cfg["obs"]["vals"]), "eq_params": {}}
+    # the observations may carry observed rows of the equation's parameter `a` (the network does not read it): the
+    # observation term keeps its value and its own mask
+    oeq = {"a": jnp.array(cfg["obs"]["arows"])[:, None]} if cfg["obs"].get("arows") else {}
+    obs = {"pinn_in": jnp.array(cfg["obs"]["inputs"]), "val": jnp.array(cfg["obs"]["vals"]), "eq_params": oeq}
     w = cfg["w"]
     if kind == "ode":
         class Eq(jinns.loss.ODE):
@@ -377,6 +381,8 @@ def generate(tier, seed, casedir, variant):
             masks = {t: list(bits[3 * i:3 * i + 3]) for i, t in enumerate(TERMS[kind])}
             if j % 25 == 24:
                 cfg = problem(rng, kind)
+            if kind != "ode":     # every second specification with observed rows of `a` attached to the observations
+                cfg = dict(cfg, obs=dict(cfg["obs"], arows=cfg["obs_arows"] if j % 2 == 1 else None))
             if kind == "ode":      # every second specification with a parameter batch on `a` (read by the equation only): each term keeps its own mask
                 cfg = dict(cfg, a_batch=cfg["a_batch_rows"] if j % 2 == 1 else None)
             try:
